@@ -140,6 +140,85 @@ theorem codecs_roundtrip (m : Member) (hd : Header) (rest : Bytes) (hm : Member.
    ⟨member_roundtrip postcard_laws m rest hm, header_roundtrip postcard_laws hd rest hh⟩,
    ⟨member_roundtrip bincode_laws m rest hm, header_roundtrip bincode_laws hd rest hh⟩⟩
 
+/-! ### the harness's shortest-header codec (not a bundled codec; here so that the model the correspondence runs
+    against is known to be a codec at all) -/
+
+theorem packed_id_roundtrip (i : Id) (rest : Bytes) (h : Id.Wire i) : packedDecId (packedEncId i ++ rest) = some (i, rest) := by
+  unfold packedEncId
+  by_cases hs : (decide (i.addr < 15) && decide (i.gen < 16)) = true
+  · simp only [hs, if_true, List.cons_append, List.nil_append, packedDecId]
+    simp only [Bool.and_eq_true, decide_eq_true_eq] at hs
+    have h1 : (i.addr * 16 + i.gen == 255) = false := by
+      rw [beq_eq_false_iff_ne]; omega
+    simp only [h1, Bool.false_eq_true, if_false]
+    have : (⟨(i.addr * 16 + i.gen) / 16, (i.addr * 16 + i.gen) % 16⟩ : Id) = i := by
+      cases i with
+      | mk a g => simp only [Id.mk.injEq]; simp only at hs; omega
+    rw [this]
+  · simp only [hs, Bool.false_eq_true, if_false, u16be, List.cons_append, List.nil_append, packedDecId,
+      beq_self_eq_true, if_true]
+    have : (⟨i.addr / 256 % 256 * 256 + i.addr % 256, i.gen / 256 % 256 * 256 + i.gen % 256⟩ : Id) = i := by
+      cases i with
+      | mk a g => simp only [Id.mk.injEq]; have := h.1; have := h.2; simp only at *; omega
+    rw [this]
+
+theorem packed_inc_roundtrip (n : Nat) (rest : Bytes) (h : n < 65536) : packedDecInc (packedEncInc n ++ rest) = some (n, rest) := by
+  unfold packedEncInc
+  by_cases hs : n < 255
+  · have h1 : (n == 255) = false := by rw [beq_eq_false_iff_ne]; omega
+    simp [hs, packedDecInc, h1]
+  · simp only [hs, if_false, u16be, List.cons_append, List.nil_append, packedDecInc, beq_self_eq_true, if_true]
+    have : n / 256 % 256 * 256 + n % 256 = n := by omega
+    rw [this]
+
+theorem packed_member_roundtrip (m : Member) (rest : Bytes) (hm : Member.Wire m) :
+    packedCodec.decMember (packedCodec.encMember m ++ rest) = some (m, rest) := by
+  simp only [packedCodec, packedEncMember, packedDecMember, List.append_assoc]
+  rw [packed_id_roundtrip _ _ hm.1]
+  simp only []
+  rw [packed_inc_roundtrip _ _ hm.2]
+  simp only [List.cons_append, List.nil_append, (stTag_roundtrip m.st).1]
+
+theorem packed_idnum_roundtrip (i : Id) (n : Nat) (rest : Bytes) (h : Id.Wire i) (hn : n < 256) :
+    packedDecIdNum (packedEncId i ++ n % 256 :: rest) = some (i, n, rest) := by
+  unfold packedDecIdNum
+  rw [packed_id_roundtrip _ _ h]
+  simp only []
+  rw [Nat.mod_eq_of_lt hn]
+
+theorem packed_header_roundtrip (hd : Header) (rest : Bytes) (hh : Header.Wire hd) :
+    packedCodec.decHeader (packedCodec.encHeader hd ++ rest) = some (hd, rest) := by
+  simp only [packedCodec, packedEncHeader, packedDecHeader, List.append_assoc]
+  rw [packed_id_roundtrip _ _ hh.1]
+  simp only []
+  rw [packed_inc_roundtrip _ _ hh.2.1]
+  simp only []
+  rw [packed_id_roundtrip _ _ hh.2.2.1]
+  simp only []
+  have hmsg : packedDecMsg (packedEncMsg hd.msg ++ rest) = some (hd.msg, rest) := by
+    have hw := hh.2.2.2
+    cases hm : hd.msg with
+    | ping n => rw [hm] at hw; simp [packedEncMsg, packedDecMsg, decRawU8, Nat.mod_eq_of_lt hw]
+    | ack n => rw [hm] at hw; simp [packedEncMsg, packedDecMsg, decRawU8, Nat.mod_eq_of_lt hw]
+    | pingReq t n =>
+      rw [hm] at hw
+      simp only [packedEncMsg, List.cons_append, List.nil_append, packedDecMsg, List.append_assoc]
+      rw [packed_idnum_roundtrip t n rest hw.1 hw.2]; rfl
+    | indirectPing t n =>
+      rw [hm] at hw
+      simp only [packedEncMsg, List.cons_append, List.nil_append, packedDecMsg, List.append_assoc]
+      rw [packed_idnum_roundtrip t n rest hw.1 hw.2]; rfl
+    | indirectAck t n =>
+      rw [hm] at hw
+      simp only [packedEncMsg, List.cons_append, List.nil_append, packedDecMsg, List.append_assoc]
+      rw [packed_idnum_roundtrip t n rest hw.1 hw.2]; rfl
+    | forwardedAck t n =>
+      rw [hm] at hw
+      simp only [packedEncMsg, List.cons_append, List.nil_append, packedDecMsg, List.append_assoc]
+      rw [packed_idnum_roundtrip t n rest hw.1 hw.2]; rfl
+    | _ => simp [packedEncMsg, packedDecMsg]
+  rw [hmsg]
+
 /-! ### decoding never reads past its input: what is returned as "rest" is a suffix of the input -/
 
 theorem unleb_suffix (mb lm : Nat) (fuel i : Nat) (b : Bytes) (n : Nat) (rest : Bytes)
